@@ -4,6 +4,7 @@ package kessoku
 
 import (
 	"go/types"
+	"math"
 
 	vs "github.com/mazrean/kessoku/internal/verifspec"
 )
@@ -159,4 +160,153 @@ func contract_InjectorParam_ChannelName(ip *InjectorParam, varPool *VarPool) (re
 	vs.Ensures("inv", poolInv(varPool))
 	vs.Modifies(ip.channelName, varPool.vars)
 	return
+}
+
+// ---------------------------------------------------------------------------
+// C01 / C02 / C06: reference bookkeeping of a provided value
+// ---------------------------------------------------------------------------
+
+//kvc:contract (*InjectorParam).Ref
+func contract_InjectorParam_Ref(p *InjectorParam, isWait bool) {
+	vs.Requires(p != nil)
+	vs.Ensures("counts_reference", p.refCounter == vs.Old(p.refCounter)+1)
+	// a value consumed from another goroutine keeps its completion channel whatever is registered later;
+	// injector arguments never get one
+	vs.Ensures("channel_is_sticky", p.withChannel == (!p.isArg && (vs.Old(p.withChannel) || isWait)))
+	vs.Modifies(p.refCounter, p.withChannel)
+}
+
+//kvc:contract (*InjectorParam).WithChannel
+func contract_InjectorParam_WithChannel(p *InjectorParam) (result bool) {
+	vs.Requires(p != nil)
+	vs.Ensures("is_field", result == p.withChannel)
+	return
+}
+
+// ---------------------------------------------------------------------------
+// C10: which providers count for the signature
+// ---------------------------------------------------------------------------
+
+func nodesNonNil(g *Graph) bool {
+	return g != nil && vs.Forall(len(g.nodes), func(i int) bool { return g.nodes[i] != nil })
+}
+
+func asyncNode(n *node) bool    { return n.providerSpec != nil && n.providerSpec.IsAsync }
+func fallibleNode(n *node) bool { return n.providerSpec != nil && n.providerSpec.IsReturnError }
+
+//kvc:contract (*Graph).hasAsyncProviders
+func contract_Graph_hasAsyncProviders(g *Graph) (result bool) {
+	vs.Requires(nodesNonNil(g))
+	// exactly the providers that made it into the graph (the needed ones) count
+	vs.Ensures("iff_some_needed_provider_is_async", result == vs.Exists(len(g.nodes), func(i int) bool { return asyncNode(g.nodes[i]) }))
+	return
+}
+
+//kvc:loop (*Graph).hasAsyncProviders "for _, n := range g.nodes"
+func inv_hasAsyncProviders(g *Graph, kvcIdx int) {
+	vs.Invariant("none_so_far", vs.Forall(kvcIdx, func(i int) bool { return !asyncNode(g.nodes[i]) }))
+}
+
+//kvc:contract (*Graph).isReturnError
+func contract_Graph_isReturnError(g *Graph) (result bool) {
+	vs.Requires(nodesNonNil(g))
+	vs.Ensures("iff_some_needed_provider_is_fallible", result == vs.Exists(len(g.nodes), func(i int) bool { return fallibleNode(g.nodes[i]) }))
+	return
+}
+
+//kvc:loop (*Graph).isReturnError "for _, node := range g.nodes"
+func inv_isReturnError(g *Graph, kvcIdx int) {
+	vs.Invariant("none_so_far", vs.Forall(kvcIdx, func(i int) bool { return !fallibleNode(g.nodes[i]) }))
+}
+
+// ---------------------------------------------------------------------------
+// C01 / C03 / C05: choice of the thread (pool) a provider runs in
+// ---------------------------------------------------------------------------
+
+// poolsWellFormed: every pooled node is a provider node.
+func poolsWellFormed(pools [][]*node) bool {
+	return vs.Forall(len(pools), func(i int) bool {
+		return vs.Forall(len(pools[i]), func(j int) bool { return pools[i][j] != nil && pools[i][j].providerSpec != nil })
+	})
+}
+
+// candidatePool: a synchronous provider never opens a new thread.
+func candidatePool(n *node, pools [][]*node, i int) bool {
+	return n.providerSpec.IsAsync || len(pools[i]) > 0
+}
+
+// allProvidedIn: every dependency of the node is already available inside pool i's thread.
+func allProvidedIn(deps []*node, ppn []map[*node]struct{}, i int) bool {
+	return vs.Forall(len(deps), func(k int) bool { return vs.Has(ppn[i], deps[k]) })
+}
+
+func noAsyncIn(pool []*node) bool {
+	return vs.Forall(len(pool), func(j int) bool { return !pool[j].providerSpec.IsAsync })
+}
+
+//kvc:contract (*Graph).findOptimalPool
+func contract_Graph_findOptimalPool(g *Graph, n *node, pools [][]*node, poolProvidedNodes []map[*node]struct{}) (result int) {
+	vs.Requires(g != nil && n != nil && len(pools) >= 1 && len(pools) == len(poolProvidedNodes) && poolsWellFormed(pools))
+	vs.Ensures("in_range", 0 <= result && result < len(pools))
+	// C01/C03: a synchronous provider joins an existing thread (or thread 0 when nothing has been placed yet)
+	vs.Ensures("sync_joins_nonempty_or_first", vs.Implies(n.providerSpec != nil && !n.providerSpec.IsAsync,
+		len(pools[result]) > 0 || (result == 0 && vs.Forall(len(pools), func(i int) bool { return len(pools[i]) == 0 }))))
+	// C01: ... and if some existing thread already holds all its inputs it is placed in such a thread
+	vs.Ensures("sync_prefers_fully_provided", vs.Implies(n.providerSpec != nil && !n.providerSpec.IsAsync &&
+		vs.Exists(len(pools), func(i int) bool {
+			return len(pools[i]) > 0 && allProvidedIn(vs.Old(g.reverseEdges[n]), poolProvidedNodes, i)
+		}), allProvidedIn(vs.Old(g.reverseEdges[n]), poolProvidedNodes, result)))
+	// C05: an input-free Async provider is never queued behind another Async provider while a free thread exists
+	vs.Ensures("input_free_async_not_behind_async", vs.Implies(n.providerSpec != nil && n.providerSpec.IsAsync && len(g.reverseEdges[n]) == 0 &&
+		vs.Exists(len(pools), func(i int) bool { return len(pools[i]) == 0 }), noAsyncIn(pools[result])))
+	vs.Allocates()
+	return
+}
+
+//kvc:loop (*Graph).findOptimalPool "for i, providedNodeMap := range poolProvidedNodes"
+func inv_findOptimalPool_scan(n *node, pools [][]*node, poolProvidedNodes []map[*node]struct{}, dependencies []*node, maxProvidedCount int, maxProvidedPools []int, kvcIdx int) {
+	vs.Invariant("count_bounds", 0 <= maxProvidedCount && maxProvidedCount <= len(dependencies))
+	vs.Invariant("recorded_pools_are_candidates", vs.Forall(len(maxProvidedPools), func(k int) bool {
+		return 0 <= maxProvidedPools[k] && maxProvidedPools[k] < kvcIdx && candidatePool(n, pools, maxProvidedPools[k]) &&
+			vs.Implies(maxProvidedCount == len(dependencies), allProvidedIn(dependencies, poolProvidedNodes, maxProvidedPools[k]))
+	}))
+	vs.Invariant("positive_count_means_recorded", vs.Implies(maxProvidedCount > 0, len(maxProvidedPools) > 0))
+	vs.Invariant("some_candidate_recorded", vs.Implies(vs.Exists(kvcIdx, func(i int) bool { return candidatePool(n, pools, i) }), len(maxProvidedPools) > 0))
+	vs.Invariant("full_candidate_means_full_count", vs.Implies(vs.Exists(kvcIdx, func(i int) bool {
+		return candidatePool(n, pools, i) && allProvidedIn(dependencies, poolProvidedNodes, i)
+	}), maxProvidedCount == len(dependencies)))
+}
+
+//kvc:loop (*Graph).findOptimalPool "for _, dependency := range dependencies"
+func inv_findOptimalPool_count(dependencies []*node, providedNodeMap map[*node]struct{}, providedCount int, kvcIdx int) {
+	vs.Invariant("count_bounds", 0 <= providedCount && providedCount <= kvcIdx)
+	vs.Invariant("count_full_iff_all_provided", (providedCount == kvcIdx) == vs.Forall(kvcIdx, func(k int) bool { return vs.Has(providedNodeMap, dependencies[k]) }))
+}
+
+//kvc:loop (*Graph).findOptimalPool "for _, poolIdx := range maxProvidedPools { if !n.providerSpec.IsAsync {"
+func inv_findOptimalPool_poolloop(n *node, kvcIdx int) {
+	// a synchronous provider returns in the first iteration
+	vs.Invariant("sync_never_iterates", vs.Implies(!n.providerSpec.IsAsync, kvcIdx == 0))
+}
+
+//kvc:loop (*Graph).findOptimalPool "for i := range pools[poolIdx]"
+func inv_findOptimalPool_backscan(pools [][]*node, poolIdx int, dependencies []*node, kvcIdx int) {
+	vs.Invariant("scanned_are_sync_non_dependencies", vs.Forall(kvcIdx, func(j int) bool {
+		return !pools[poolIdx][len(pools[poolIdx])-1-j].providerSpec.IsAsync
+	}))
+}
+
+//kvc:loop (*Graph).findOptimalPool "for i, pool := range pools"
+func inv_findOptimalPool_empty(pools [][]*node, kvcIdx int) {
+	vs.Invariant("no_empty_pool_so_far", vs.Forall(kvcIdx, func(i int) bool { return len(pools[i]) != 0 }))
+}
+
+//kvc:loop (*Graph).findOptimalPool "for _, poolIdx := range maxProvidedPools { if !n.providerSpec.IsAsync && len(pools[poolIdx]) == 0"
+func inv_findOptimalPool_minsize(n *node, pools [][]*node, maxProvidedPools []int, minSize int, minSizePool int, kvcIdx int) {
+	vs.Invariant("untouched_or_recorded", (minSize == math.MaxInt && minSizePool == 0) ||
+		(0 <= minSizePool && minSizePool < len(pools) && len(pools[minSizePool]) == minSize && (n.providerSpec.IsAsync || minSize > 0) &&
+			vs.Exists(kvcIdx, func(k int) bool { return maxProvidedPools[k] == minSizePool })))
+	vs.Invariant("minimal_so_far", vs.Forall(kvcIdx, func(k int) bool {
+		return (!n.providerSpec.IsAsync && len(pools[maxProvidedPools[k]]) == 0) || minSize <= len(pools[maxProvidedPools[k]])
+	}))
 }
